@@ -1,5 +1,6 @@
 """Expression evaluation to terms (partial evaluation with folding)."""
 import ast
+from .model import EXC_PARENT, canon_exc
 
 from .model import ClassInfo, FuncInfo, canon_exc
 from .icore import Env, Frame
@@ -458,8 +459,18 @@ class ExprMixin(object):
         if isinstance(base, (Const, Fmt, ListObj, DictObj, TupleT)):
             return ExtBound(base, name)
         if isinstance(base, ExcVal):
-            if name == 'errno':
-                return Attr(base, name)
+            if name in ('errno', 'strerror', 'filename', 'filename2') and self.cur is not None:
+                # only OSError (and its subclasses) has these attributes: for any other
+                # class that arrives at the handler the access itself raises
+                lacking = [c for c in base.classes
+                           if 'OSError' not in self.exc_chain(c) and
+                           c not in ('Exception', 'BaseException') and
+                           (canon_exc(c) in EXC_PARENT)]
+                if lacking:
+                    n = self.emit('type-error', node, {
+                        'what': 'caught %s has no attribute %s' % ('/'.join(lacking), name),
+                        'value': base})
+                    self.route_raise(n, ['AttributeError'])
             return Attr(base, name)
         if isinstance(base, (FuncRef, Bound, LambdaRef)):
             return Attr(base, name)
